@@ -595,7 +595,7 @@ func openStore(dir string, options StoreOptions) (*Store, error) {
 		err = checkHeader(file)
 		if err != nil {
 			file.Close()
-			return nil, err
+			continue
 		}
 
 		// Will recursively restore ChildFooters of childCollections
